@@ -234,7 +234,11 @@ func C11(run *hx.Run) {
 			}
 			colls[c] = collations[rng.Intn(3)]
 			descs[c] = rng.Intn(2) == 0
-			key = append(key, sdb.KeyCol{V: rs.vals[ki[c]], Collate: colls[c], Desc: descs[c]})
+			kc := sdb.KeyCol{V: rs.vals[ki[c]], Collate: colls[c], Desc: descs[c]}
+			if colls[c] == "binary" && rng.Intn(2) == 0 {
+				kc.Collate = "" // the default collation, left unnamed as the high-level API does
+			}
+			key = append(key, kc)
 		}
 		wantEq, wantSe := true, true
 		decided := false
